@@ -156,6 +156,12 @@ def case_rule(rnd, rho1, rho2, acc, sample=False, forced=None):
         mods = abstract_tree(rnd)
         imps = random_imports(rnd, mods, k_max=9)
         names = [m for m in mods if m != "r"]
+        if rnd.random() < 0.015:
+            # magnitudes: the same case inside a graph of 520-700 modules (numbered filler modules below existing ones)
+            hosts = [m for m in mods]
+            filler = [f"{rnd.choice(hosts)}.f{k}" for k in range(rnd.randint(520, 700))]
+            mods = mods + sorted(set(filler) - set(mods))
+            acc.count("rule_cases_in_graphs_with_500_or_more_modules")
         skind, okind = rnd.choice(["named", "named", "sub"]), rnd.choice(["named", "named", "sub"])
         subs = rnd.sample(names, min(len(names), rnd.randint(1, 3)))
         objs = rnd.sample(names, min(len(names), rnd.randint(1, 3)))
@@ -205,6 +211,39 @@ def case_layer(rnd, rho1, rho2, acc, sample=False, forced=None):
                 subsof = [m for m in mods if any(is_ancestor(t, m) for t in layers[L]) and m not in layers[L]]
                 if subsof:
                     layers[L].append(rnd.choice(subsof))
+        if rnd.random() < 0.06:
+            # magnitudes: one layer lists 100-150 further (numbered) modules - and at least two sibling packages
+            L = max(layers, key=lambda k: sum(1 for m in layers[k] if m in tops))
+            free = [t for t in tops if not any(t in v for v in layers.values())]
+            if free and sum(1 for m in layers[L] if m in tops) < 2:
+                layers[L].append(free[0])
+            filler = [f"r.g{k}" for k in range(rnd.randint(100, 150))]
+            mods = mods + filler
+            layers[L] = layers[L] + filler
+            both = [m for m in layers[L] if m in tops]
+            if len(both) >= 2 and rnd.random() < 0.7:
+                # the two packages become prefix siblings, and an unlisted sub module of the longer-named one is
+                # imported from / imports another layer
+                t1, t2 = both[0], both[1]
+                rho2 = dict(rho2)
+                short = "a"
+                longer = rnd.choice([v for v in rho2.values() if v != short and v.startswith(short)] or ["ab"])
+                for comp, want in ((t1.split(".")[1], short), (t2.split(".")[1], longer)):
+                    holder = [k for k, v in rho2.items() if v == want]
+                    if holder:
+                        rho2[holder[0]], rho2[comp] = rho2[comp], want
+                    else:
+                        rho2[comp] = want
+                below = [m for m in mods if is_ancestor(t2, m) and m not in layers[L]]
+                if not below:
+                    below = [t2 + "." + rnd.choice(ABSTRACT)]
+                    mods = mods + below
+                outside = [m for m in mods if any(is_ancestor(t, m) or t == m for k, v in layers.items() if k != L for t in v)]
+                if outside:
+                    a, b = rnd.choice(below), rnd.choice(outside)
+                    imps = imps + [(a, b) if rnd.random() < 0.5 else (b, a)]
+                acc.count("layer_cases_with_100_or_more_listed_modules_and_prefix_sibling_packages")
+            acc.count("layer_cases_with_100_or_more_listed_modules")
         names = list(layers)
         rnd.shuffle(names)
         anything = rnd.random() < 0.12
